@@ -39,7 +39,7 @@ LEVELS = {
             "lattice-elements model is tied to the code by exact correspondence (Qhull output handed to both). One cell per kept region "
             "with the region's corners as cycle and mesh consistency are evaluated against scipy's diagram by the oracle", "5/C19",
             "Coq theorems (interning, orientation) + exact correspondence + Voronoi oracle (partial)"),
-    "C01": ("theorems over R: force balance makes (T/mean T, 0) an exact solution of the augmented system; an injective augmented matrix has a single non-negative minimiser; together with C02 (rows) and C05 (certified minimiser) this is the property; end to end on Voronoi / Moebius tissues (all back-ends, fits, resampling, axis-aligned first segments, extreme length units): tangents within the calibrated circle-fit accuracy, reported tensions fit the assembled equations as well as the true ones, recovery error within the derived bound (2|E T| + eps_res)/sigma_min; D1 attributed", "5/C01",
+    "C01": ("theorems: the two rows the assembly gives a junction compute the resultant of the tensions along the assembled versors, so balanced tensions are in the kernel of the assembled matrix (model of C02, over Q); over R: force balance makes (T/mean T, 0) an exact solution of the augmented system; an injective augmented matrix has a single non-negative minimiser; together with C02 (rows) and C05 (certified minimiser) this is the property; end to end on Voronoi / Moebius tissues (all back-ends, fits, resampling, axis-aligned first segments, extreme length units): tangents within the calibrated circle-fit accuracy, reported tensions fit the assembled equations as well as the true ones, recovery error within the derived bound (2|E T| + eps_res)/sigma_min; D1 attributed", "5/C01",
             "Coq theorems (equilibrium solves / uniqueness) + analytic end-to-end oracle"),
     "C03": ("the same two theorems with b = M T plus C13's placement / finite-difference theorems and the unit-mobility theorems (displacement = elapsed time x F gives velocity F for every non-zero step, forward and backward, any renumbering); end-to-end recovery "
             "from generated motions (forward / backward, unequal steps, independent renumbering incl. id 0) within the tolerance "
